@@ -204,4 +204,43 @@ sizes `Ms`, from Parseval for the unnormalised DFT (`Σ_k |Σ_j a_j ω^{jk}|² =
 def powerGain (s : Setup) (focal : RegGrid) (Ms : List Nat) : Rat :=
   normFactorSq s * s.pupil.weight * (prodNat Ms : Rat) * focal.weight
 
+/-! ### Near-miss grids: how far the sampling is from FFT-commensurate, and the loosened test -/
+
+/-- Per axis `|q·N − round(q·N)|` with `q·N = λf/(δ_pupil·Δ_focal)` — the very quantity `get_fft_parameters` compares
+with `1e-10`, exact.  `0` on an axis iff `λf/(δΔ)` is an integer there. -/
+def commSlack (s : Setup) (focal : RegGrid) : List Rat :=
+  (s.pupil.delta.zip focal.delta).map fun (δ, Δ) => truncSlack (lamf s / (δ * Δ))
+
+/-- `paddedSize` with a tolerance: `M = round(λf/(δΔ))` is accepted when `|λf/(δΔ) − M| ≤ atol + rtol·|M|`
+(`atol = 1e-10, rtol = 0`: the test `get_fft_parameters` really makes on floats; `atol = 1e-8, rtol = 1e-5`:
+`np.allclose`'s defaults). -/
+def paddedSizeLoose (atol rtol lf δ Δ : Rat) (N : Nat) : Option Nat :=
+  if δ * Δ = 0 then none else
+  let m := lf / (δ * Δ)
+  let M := roundHalfEven m
+  if ratAbs (m - (M : Rat)) ≤ atol + rtol * ratAbs (M : Rat) ∧ 0 < M ∧ (N : Int) ≤ M then some M.toNat else none
+
+/-- `classify` with the tolerant integrality test (everything else as `classify`). -/
+def classifyLoose (atol rtol : Rat) (s : Setup) (focal : RegGrid) : FocalClass × List Nat :=
+  if focal.dims.length ≠ s.pupil.dims.length then (.other, []) else
+  match (s.pupil.delta.zip (focal.delta.zip s.pupil.dims)).mapM
+      fun (δ, Δ, N) => paddedSizeLoose atol rtol (lamf s) δ Δ N with
+  | none => (.other, [])
+  | some Ms =>
+    if (focal.dims.zip Ms).all (fun (d, M) => d ≤ M) then
+      let isFull := focal.dims == Ms &&
+        ((focal.zero.zip (focal.delta.zip focal.dims)).all fun (z, Δ, M) => z == nativeZero Δ M)
+      (if isFull then .full else .native, Ms)
+    else (.other, Ms)
+
+/-- The focal-plane grid a `FastFourierTransform` built for padded sizes `Ms` evaluates the integral on
+(`make_fft_grid(pupil, q = M/N, fov, shift)` scaled back by `λf/2π`): spacing `λf/(δ M)`; the shift is taken from the
+supplied grid, `shift = Z − Δ·(−⌊Mo/2⌋)`, so the zero is `Z − (Δ' − Δ)·⌊Mo/2⌋`.  Equal to the supplied grid exactly
+when the sampling is commensurate. -/
+def snappedGrid (s : Setup) (focal : RegGrid) (Ms : List Nat) : RegGrid :=
+  let ds := (s.pupil.delta.zip Ms).map fun (δ, M) => lamf s / (δ * (M : Rat))
+  { delta := ds, dims := focal.dims,
+    zero := (focal.zero.zip (focal.delta.zip (ds.zip focal.dims))).map
+      fun (z, Δ, Δ', Mo) => z - (Δ' - Δ) * ((Mo / 2 : Nat) : Rat) }
+
 end HcipyVerif.Fraunhofer
